@@ -42,6 +42,14 @@ func init() {
 			RealStub: realStubL1,
 		},
 		PropertyPlan{
+			ID: "C08", Level: "exploration",
+			Families: []FamilyPlan{{Name: "c08", Quick: 320, Thorough: 12000, Chunk: 10}, {Name: "c08cmd", Quick: 32, Thorough: 800, Chunk: 2}},
+			Rule:     "each run = 1-3 sensors (hwmon/file; cmd in its own family) polled by the real sensor monitor for 40-400 polls with window size in {1,2,3,5,10,20,50}; reading programmes with plateaus and jumps incl. negative and int-extreme values; 70% of the runs inject 1-6 read faults (missing/empty/garbage/huge file, EIO, EACCES; command exit!=0, garbage, nan, inf, -inf, empty, timeout, killed) of length 1-20 polls. Oracle after every poll: hull of initial value and successful finite readings, geometric convergence on plateaus, smoothed value bit-identical after a failed or non-finite poll. distinct = scenario hash; non-trivial = more than 10 polls judged",
+			Probes:   []string{"good-polls", "failed-polls", "convergence-judged(k>=5)"},
+			Assume:   []string{"relative tolerance 1e-12 on the hull and 1e-9 on the convergence bound for floating-point rounding of the update itself; 'unchanged' is exact"},
+			RealStub: realStubL1,
+		},
+		PropertyPlan{
 			ID: "C10", Level: "exploration",
 			Families: []FamilyPlan{{Name: "c10", Quick: 200, Thorough: 6000, Chunk: 8}, {Name: "c10cmd", Quick: 12, Thorough: 200, Chunk: 1, SeedTimeout: 300 * time.Second}},
 			Rule:     "each run = one neverStop fan (hwmon/file/cmd) with RPM input, constant curve value, rpmRollingWindowSize n in {1,2,3,5,10,20,50}; the rotor stalls at a seeded instant after it had been spinning (or it never spins); some stalls end by themselves; some fans have a 0-3 step range so that the maximum is reached. Oracle in counted RPM polls: a raise within 20n+20 polls of continuous 0 RPM, again after every raise; at the maximum with 0 RPM for the same bound: error reported, regulation of that fan stopped, fan restored (C03 predicate). distinct = scenario hash; non-trivial = a stall episode was observed",
